@@ -44,11 +44,18 @@ class SimClock:
         self.now += s
 
 
-def make_module(seed):
+def make_module(seed, key="q"):
     from flax import nnx
     from rl_blox.blox.function_approximator.mlp import MLP
 
-    return MLP(2, 1, [3], "relu", nnx.Rngs(seed))
+    net = MLP(2, 1, [3], "relu", nnx.Rngs(seed))
+    if key == "policy":
+        # a module with non-Param variables (action_scale / action_bias), asymmetric bounds
+        import gymnasium as gym
+        from rl_blox.blox.function_approximator.policy_head import DeterministicTanhPolicy
+
+        return DeterministicTanhPolicy(net, gym.spaces.Box(np.float32([-0.5]), np.float32([2.0]), (1,), np.float32))
+    return net
 
 
 def bump(module, amount):
@@ -123,8 +130,11 @@ class LogRun:
                     define_ops.append(i)
                 elif k == "define_freq":
                     key, f = op[1], op[2]
-                    if key in epoch_n or key in freq:
-                        continue  # only defined before the first record of that key (see DESIGN §4 C20)
+                    late_ok = all(kd != "orbax" for kd, _ in members)  # "every interval-th recorded epoch" is unambiguous for the standard logger
+                    if key in freq or (key in epoch_n and not late_ok):
+                        continue  # Orbax: only defined before the first record of that key (see DESIGN §4 C20); never re-defined
+                    if key in epoch_n:
+                        res.fault("frequency_defined_after_records")
                     top.define_checkpoint_frequency(key, f)
                     freq[key] = f
                     last_step[key] = 0
@@ -151,7 +161,7 @@ class LogRun:
                 elif k == "epoch":
                     _, key, mutate, st = op
                     if key not in modules:
-                        modules[key] = make_module(len(modules) + 1)
+                        modules[key] = make_module(len(modules) + 1, key)
                     if mutate:
                         bump(modules[key], mutate)
                     eff = n_steps if st is None else st
@@ -299,7 +309,7 @@ class LogRun:
                 # after an injected write failure only "every listed path is restorable" is demanded
                 for key in sorted(getattr(m, "checkpoint_path", {})):
                     for path in m.checkpoint_path[key]:
-                        target = make_module(0)
+                        target = make_module(0, key)
                         try:
                             if not os.path.exists(path):
                                 raise FileNotFoundError(path)
@@ -322,7 +332,7 @@ class LogRun:
                         self.V("C20.e", name, f"{key!r}: listed path {os.path.basename(path.rstrip('/'))} does not exist")
                         return
                     paths_all.append(os.path.normpath(path))
-                    target = make_module(0)
+                    target = make_module(0, key)
                     try:
                         restored = ocp.StandardCheckpointer().restore(path, nnx.state(target) if kind == "orbax" else nnx.split(target)[1])
                     except Exception as e:
@@ -361,8 +371,12 @@ def make_plan(rng):
     ops = []
     if rng.random() < 0.8:
         ops.append(["define_experiment"])
+    late = {}
     for k, f in freq.items():
-        ops.append(["define_freq", k, f])
+        if "orbax" not in loggers and rng.random() < 0.3:
+            late[k] = f
+        else:
+            ops.append(["define_freq", k, f])
     n = rng.choice([5, 10, 20, 40, 80])
     has_ckpt = any(l in ("standard", "orbax") for l in loggers)
     n_epochs = 0
@@ -370,8 +384,11 @@ def make_plan(rng):
     nsteps = 0
     step_style = rng.choice(["implicit", "explicit", "mixed"])
     disk_faults = rng.random() < 0.25
-    for _ in range(n):
+    for it in range(n):
         r = rng.random()
+        if late and it >= n // 3:
+            k0 = sorted(late)[0]
+            ops.append(["define_freq", k0, late.pop(k0)])
         if r < 0.15:
             ops.append(["start"])
         elif r < 0.30:
